@@ -98,3 +98,23 @@ Fixpoint linked_b (a : root) (l : list (root * root)) (b : root) : bool :=
   | [] => a =? b
   | (cur, last) :: t => (last =? a) && linked_b cur t b
   end.
+
+(* ---------------------------------------------------------------------- *)
+(* Journaling store. *)
+Definition jis_commit (st : jstep) : bool := match st with JCommit _ _ => true | _ => false end.
+Definition jcommit_ok (ev : jevent) : bool := is_ok (je_res ev) && jis_commit (je_step ev).
+Definition jcommit_args (ev : jevent) : option (root * root) :=
+  match je_step ev with JCommit c l => Some (c, l) | _ => None end.
+(* the Commit went through ChunkJournal.Update (not the nothing-novel shortcut) *)
+Definition jswapped (ev : jevent) : bool :=
+  jcommit_ok ev && match je_step ev with
+                   | JCommit c l => negb (negb (jany_novel (je_before ev)) && (c =? l))
+                   | _ => false end.
+Definition jswap_of (ev : jevent) : list (root * root) :=
+  if jswapped ev then match jcommit_args ev with Some a => [a] | None => [] end else [].
+Definition jswaps (tr : list jevent) : list (root * root) := flat_map jswap_of tr.
+
+Definition jcas_viol_b (ev : jevent) : bool :=
+  jcommit_ok ev && match jcommit_args ev with
+                   | Some (_, last) => negb (j_root (je_before ev) =? last)
+                   | None => true end.
